@@ -10,6 +10,13 @@ QUERY_PRODUCTIONS = [("prepare_select_statement", "select"), ("prepare_insert_st
                      ("prepare_delete_statement", "delete"), ("prepare_with_query", "with_query"), ("prepare_table_ref", "table_ref")]
 
 
+SCHEMA_PRODUCTIONS = [(stmt.TB, "prepare_table_create_statement", "table_create"), (stmt.TB, "prepare_table_alter_statement", "table_alter"),
+                      (stmt.TB, "prepare_table_drop_statement", "table_drop"), (stmt.TB, "prepare_table_rename_statement", "table_rename"),
+                      (stmt.TB, "prepare_table_truncate_statement", "table_truncate"), (stmt.IB, "prepare_index_create_statement", "index_create"),
+                      (stmt.IB, "prepare_index_drop_statement", "index_drop"), (stmt.FKB, "prepare_foreign_key_create_statement", "fk_create"),
+                      (stmt.FKB, "prepare_foreign_key_drop_statement", "fk_drop")]
+
+
 def run_structure(run, pid, kind, dialects, cfgs):
     unsupported = stmt.load_table("unsupported.json")
     guards = stmt.load_table("guards.json")
@@ -32,6 +39,13 @@ def run_structure(run, pid, kind, dialects, cfgs):
                 for method, production in QUERY_PRODUCTIONS:
                     total += grammar.check_production(run, pid + ".R1", f, cfg, d, stmt.QB, method, production)
                 run.floor(pid + ".R1", "%s:grammar-nfa-states" % d, total, 400, cfg)
+        if kind == "schema":
+            for d in present:
+                total = 0
+                for trait, method, production in SCHEMA_PRODUCTIONS:
+                    if production in grammar.grammar(d).ast:
+                        total += grammar.check_production(run, pid + ".R1", f, cfg, d, trait, method, production)
+                run.floor(pid + ".R1", "%s:grammar-nfa-states" % d, total, 300, cfg)
         ns = stmt.check_separators(run, pid + ".R2", f, cfg, select=sel)
         run.floor(pid + ".R2", "separated-lists", ns, 8 if kind == "query" else 3, cfg)
         npar = stmt.check_parens(run, pid + ".R2", f, cfg, select=sel)
@@ -49,7 +63,7 @@ def run_structure(run, pid, kind, dialects, cfgs):
                 if d != "sqlite":
                     nt = coltypes.check_dialect(run, pid + ".R2", f, cfg, d)
                     run.floor(pid + ".R2", "%s:type-rows" % d, nt, 40, cfg)
-    if kind == "query":
+    if True:
         run.trusted.append("specs/{%s}.ebnf (clause-level grammar skeletons written from the dialect manuals, permissive where marked) and specs/domain.json "
                            "(feature-set assumptions)" % ",".join(dialects))
         run.assumptions.append("R1 decides the token language of the renderers with guards free (correlated boolean flags, loop-index guards and variants "
